@@ -166,6 +166,8 @@ def generate(rng, index, tier):
         plan['slow_closing'] = rng.choice([0.05, 0.5, 2.0])
     if rng.random() < 0.2:
         plan['store_amount'] = rng.choice([0, 1, 2, 3])
+    if rng.random() < 0.12 and steps:
+        steps.insert(rng.randint(0, len(steps) - 1), {'op': 'break_dir', 'dir': 'live', 'gap': rng.choice(GAPS)})
     if rng.random() < 0.25:
         plan['connect_mode'] = rng.choice(['fallback', 'race'])
         plan['portless'] = sorted(rng.sample([STRANGER, FRIEND], rng.randint(1, 2)))
@@ -244,6 +246,13 @@ def corpus(tier):
             out.append(_plan([search(carrier, STRANGER), search(carrier, FRIEND, 'secret'), search(carrier, STRANGER, 'nomatch'),
                               search(carrier, STRANGER, '*ong'), search(carrier, FRIEND)],
                              parent=parent, store_amount=amount))
+    # 11. a sub directory of the share is replaced by a plain file after the scan: matches below it cannot be looked at
+    for carrier in ('server', 'dist'):
+        parent = None if carrier == 'server' else 'default'
+        out.append(_plan([search(carrier, STRANGER, 'song'), {'op': 'break_dir', 'dir': 'live', 'gap': 0.5},
+                          search(carrier, STRANGER, 'song', gap=1.0), search(carrier, FRIEND, 'live', gap=1.0),
+                          search(carrier, STRANGER, 'concert live', gap=1.0), search(carrier, STRANGER, 'tape', gap=1.0)],
+                         parent=parent))
     # 9. a child user with two connections at once, one of them goes away; the parent's user dials in a second time
     for carrier in ('dist', 'legacy'):
         for which in ('old', 'new'):
@@ -349,6 +358,7 @@ def _run(world: World, plan):
     index.add(dirs['priv'], 'friends')
 
     state = {'activity': loop.time(), 'tickets': 100}
+    broken = set()                  # files that cannot be looked at any more (ENOTDIR)
     keep = []
     links = []                      # D link records
     by_sim = {}
@@ -676,6 +686,21 @@ def _run(world: World, plan):
                 state['server_lost_at'] = loop.time()
                 (sess[-1].abort if step.get('how') == 'abort' else sess[-1].close)()
                 sig_steps.append(('server_loss',))
+        elif op == 'break_dir':
+            # after the scan a sub directory of the public share is replaced by a plain file: the files below it are still in
+            # the index but every look at them fails with ENOTDIR (not "file not found")
+            import shutil
+            target = os.path.join(dirs['pub'], step.get('dir', 'live'))
+            if os.path.isdir(target):
+                for base_, _d, names in os.walk(target):
+                    for name in names:
+                        broken.add(os.path.join(base_, name))
+                shutil.rmtree(target)
+                with open(target, 'wb') as fh:
+                    fh.write(b'x')
+                state['broken_at'] = loop.time()
+                world.disk.fired['directory_replaced_by_file'] += 1
+                sig_steps.append(('break_dir',))
         elif op == 'parent_join':
             if live(PARENT, 'acc') is None:
                 peers[PARENT].spawn(take_parent(int(step.get('level', 1)), step.get('root', 'r2')))
@@ -865,6 +890,18 @@ def _run(world: World, plan):
                     world.violate('C14.reply_spurious', what='no_match', **base)
             else:
                 visible, locked = expectation
+                if broken and (visible | locked) & broken and td > state['broken_at'] - 3.0:
+                    if td <= state['broken_at'] + 1e-6:
+                        # the answer was being put together around the instant the directory went away: not judged
+                        world.probe('request_around_the_instant_the_directory_went_away')
+                        sig_requests.append((req['carrier'], 'unreadable-around'))
+                        continue
+                    # files that cannot be looked at are left out of the answer; the others are still answered
+                    world.probe('match_on_unreadable_file')
+                    visible, locked = visible - broken, locked - broken
+                    if not visible and not locked:
+                        sig_requests.append((req['carrier'], 'unreadable'))
+                        continue
                 klass = 'both' if visible and locked else 'visible' if visible else 'locked'
                 facts = dict(base, matches=klass)
                 written = wire is not None and any(
